@@ -598,7 +598,71 @@ def run_functional(ctx, i, rng):
         v_p = dict(v_p, counter=unfreeze(want[1])['counter'])
 
 
+def run_readonly_carry(ctx, i, rng):
+  """A carried collection the caller did not make mutable (evaluation: apply without mutable=...): the body only reads it, the
+  unrolled loop is perfectly defined, and the scan returns what that loop returns. Also a carried collection next to it that IS
+  mutable keeps seeing each iteration's update."""
+  import jax
+  import jax.numpy as jnp
+  import flax.linen as nn
+  n = 2 + i % 3
+  style = ['function', 'module'][(i // 3) % 2]
+  two = (i // 6) % 2 == 1     # a second carried collection ('acc') that is mutable
+  reverse = (i // 12) % 2 == 1
+  desc = dict(length=n, style=style, second_mutable_carry=two, reverse=reverse)
+  with ctx.case('readonly_carry', i, desc, nontrivial=True):
+    class Cell(nn.Module):
+      @nn.compact
+      def __call__(self, c, x):
+        cnt = self.variable('counter', 'i', lambda: jnp.full((), 2.0))
+        if self.is_mutable_collection('counter'):
+          cnt.value = cnt.value + 1
+        y = c + x * cnt.value
+        if two:
+          acc = self.variable('acc', 'a', lambda: jnp.zeros(()))
+          if self.is_mutable_collection('acc'):
+            acc.value = acc.value + x
+          y = y + acc.value
+        return y, y * 2
+
+    carry_cols = ['counter', 'acc'] if two else 'counter'
+
+    class Top(nn.Module):
+      @nn.compact
+      def __call__(self, xs):
+        if style == 'module':
+          return nn.scan(Cell, variable_carry=carry_cols, reverse=reverse, variable_broadcast=False)(name='cell')(jnp.zeros(()), xs)
+        cell = Cell(name='cell')
+        return nn.scan(lambda m, c, x: m(c, x), variable_carry=carry_cols, reverse=reverse)(cell, jnp.zeros(()), xs)
+
+    xs = jnp.asarray(np.random.default_rng(i).uniform(-1, 1, (n,)).astype(np.float32))
+    # (carried variables have to exist before the loop starts: the variables are supplied, not initialised inside the scan)
+    v = {'counter': {'cell': {'i': jnp.full((), 2.0)}}, **({'acc': {'cell': {'a': jnp.zeros(())}}} if two else {})}
+    mut = ['acc'] if two else False
+    out = Top().apply(v, xs, mutable=mut)
+    ctx.op('nn.scan(variable_carry read-only at apply)')
+    (c_got, ys_got), upd = out if two else (out, {})
+    # reference loop
+    c, cnt, acc, ys = 0.0, 2.0, 0.0, [None] * n
+    order = range(n - 1, -1, -1) if reverse else range(n)
+    for t in order:
+      x = float(xs[t])
+      y = c + x * cnt
+      if two:
+        acc = acc + x
+        y = y + acc
+      c = y
+      ys[t] = y * 2
+    ok = np.allclose(np.asarray(c_got), c, rtol=1e-5, atol=1e-5) and np.allclose(np.asarray(ys_got), np.asarray(ys), rtol=1e-5, atol=1e-5)
+    ctx.check(ok, 'scan:readonly_carry_collection', lambda: dict(case=desc, got=np.asarray(ys_got).tolist(), want=ys))
+    if two:
+      ctx.check(np.allclose(np.asarray(upd['acc']['cell']['a']), acc, rtol=1e-5, atol=1e-5) and 'counter' not in upd, 'scan:readonly_carry_collection:state',
+                lambda: dict(case=desc, upd=repr(upd)[:200]))
+
+
 def run(ctx):
+  for i in ctx.indices(24 if ctx.tier == 'quick' else 48, 'readonly_carry'):
+    run_readonly_carry(ctx, i, ctx.rng('readonly_carry', i))
   for i in ctx.indices(72 if ctx.tier == 'quick' else 360, 'functional'):
     run_functional(ctx, i, ctx.rng('functional', i))
   for i in ctx.indices(12 if ctx.tier == 'quick' else 60, 'remat_scan_rng'):
